@@ -315,3 +315,50 @@ def branch_type_rule(chk, tab, rule="PAIR"):
             chk.require(set(fm) <= {"n"}, rule, "%s/fmt/%s" % (rule, TR.rowkey(tab, r)), r.loc,
                         "a displacement-taking row accepts only the lone-immediate format", "formats %s" % fm)
     return n
+
+
+def _conjuncts(e):
+    e = strip(e)
+    if e.get("kind") == "BinaryOperator" and e.get("opcode") == "&&":
+        return _conjuncts(kids(e)[0]) + _conjuncts(kids(e)[1])
+    return [e]
+
+
+def sibling_guard_rule(chk, prog, rule="SIBG"):
+    """one-sided checks: two key increments in one function with the same table guard (e.g. both `name == xchg`)
+    must not differ by one of them omitting a conjunct the other tests on the mirrored operand"""
+    import re
+    sites = key_sites(prog)
+    byfn = {}
+    for s in sites:
+        if s["amount"] == 1:
+            byfn.setdefault((s["fn"], signature(s["guard"])), []).append(s)
+    n = 0
+    for (fn, sig), ss in sorted(byfn.items(), key=lambda kv: str(kv[0])):
+        if len(ss) < 2:
+            continue
+        f = prog.fn(fn)
+        conds = []
+        for s in ss:
+            inner = None
+            for m, parents in walk_with_parents(prog.body(f)):
+                if m is s["node"]:
+                    for p in reversed(parents):
+                        if p.get("kind") == "IfStmt":
+                            inner = kids(p)[0]
+                            break
+            cj = set()
+            if inner is not None:
+                for c in _conjuncts(inner):
+                    cj.add(re.sub(r"opd\[\d\]", "opd[#]", expr_str(c)))
+            conds.append((s, cj))
+        for i in range(len(conds)):
+            for j in range(i + 1, len(conds)):
+                (s1, a), (s2, b) = conds[i], conds[j]
+                n += 1
+                one_sided = (a < b) or (b < a)
+                missing = sorted((a | b) - (a & b))
+                chk.require(not one_sided, rule, "%s/%s/%s" % (rule, fn, sig[1] if sig else "?"), s2["loc"] if a > b else s1["loc"],
+                            "sibling key increments in %s test the same conditions on their (mirrored) operands" % fn,
+                            "one branch omits %s" % missing)
+    return n
